@@ -499,8 +499,9 @@ func init() {
 				if !c.quick() {
 					envLen, cliLen, maxEnv = 3, 3, 2
 					if t >= 4 {
+						// lists: one variable of <=3 bytes (two variables x 3 bytes take > 6 min per unit)
 						envLen = 3
-						maxEnv = 2
+						maxEnv = 1
 						cliLen = 2
 					}
 				}
@@ -551,7 +552,7 @@ func init() {
 	}
 	precBounds := func(c *checkCtx) map[string]interface{} {
 		return map[string]interface{}{"instances": "7 built-in types x {option, argument} x {struct API, Ptr struct API; for C06/C13 also the short XxxOpt/XxxArg functions and their Ptr flavours: all 56 declaration functions}", "default": "symbolic (strings <=2 bytes, ints 64-bit, bools; floats concrete); lists of 0-2 elements",
-			"environment": map[bool]string{true: "0-1 listed variable, value <=2 ASCII bytes", false: "0-2 listed variables, value <=3 ASCII bytes"}[c.quick()], "command line": "the value 0, 1 or 2 times, payload of 0-" + map[bool]string{true: "2", false: "3 (2 for list types)"}[c.quick()] + " arbitrary bytes"}
+			"environment": map[bool]string{true: "0-1 listed variable, value <=2 ASCII bytes", false: "0-2 listed variables (0-1 for list types), value <=3 ASCII bytes"}[c.quick()], "command line": "the value 0, 1 or 2 times, payload of 0-" + map[bool]string{true: "2", false: "3 (2 for list types)"}[c.quick()] + " arbitrary bytes"}
 	}
 	precAssume := append([]string{"strconv.ParseBool/ParseInt/ParseFloat are uninterpreted functions shared by implementation and oracle; models and counterexamples are made consistent with the real strconv by lazily added ground facts and a corpus of edge-case tokens", "environment values are ASCII without NUL"}, commonAssumptions...)
 	reg(&propDef{
